@@ -111,6 +111,80 @@ class unchanged(object):
         return False
 
 
+def _containers(o, out, depth=0):
+    """ids of the mutable containers reachable from o."""
+    from rig.place_and_route.routing_tree import RoutingTree
+    if depth > 8 or id(o) in out:
+        return
+    if isinstance(o, dict):
+        out.add(id(o))
+        for k, v in o.items():
+            _containers(v, out, depth + 1)
+    elif isinstance(o, (list, set, tuple, frozenset)):
+        if isinstance(o, (list, set)):
+            out.add(id(o))
+        for v in o:
+            _containers(v, out, depth + 1)
+    elif isinstance(o, RoutingTree):
+        out.add(id(o))
+        out.add(id(o.children))
+        for r, c in o.children:
+            _containers(c, out, depth + 1)
+
+
+def _scribble(o, depth=0, keep=()):
+    """What a caller may do to an object it was given as a result: empty
+    every mutable container in it - except those that are (parts of) the
+    arguments of the call, which must stay as they are for the second call
+    to be an identical one."""
+    from rig.place_and_route.routing_tree import RoutingTree
+    if depth > 6 or id(o) in keep:
+        return
+    if isinstance(o, RoutingTree) and id(o.children) in keep:
+        return
+    if isinstance(o, dict):
+        for v in list(o.values()):
+            _scribble(v, depth + 1, keep)
+        o.clear()
+    elif isinstance(o, list):
+        for v in list(o):
+            _scribble(v, depth + 1, keep)
+        del o[:]
+    elif isinstance(o, set):
+        o.clear()
+    elif isinstance(o, RoutingTree):
+        for r, c in list(o.children):
+            _scribble(c, depth + 1, keep)
+        if isinstance(o.children, (list, set)):
+            o.children.clear()
+    elif isinstance(o, tuple):
+        for v in o:
+            if isinstance(v, (dict, list, set)):
+                _scribble(v, depth + 1, keep)
+
+
+def result_is_the_callers(what, call, result, *args):
+    """`result` came from call() with the arguments `args`: the caller
+    empties it (as far as it is not made of the arguments themselves), an
+    identical second call must return an equal result.  Returns the second
+    result."""
+    before = snap(result)
+    keep = set()
+    for a in args:
+        _containers(a, keep)
+    args_before = snap(*args)
+    _scribble(result, 0, keep)
+    if snap(*args) != args_before:
+        raise HarnessError("emptying a result changed an argument")
+    again = call()
+    after = snap(again)
+    if after != before:
+        raise Violation("%s returns a different result after the caller "
+                        "emptied the result of an identical earlier call"
+                        % what, {"first": before[:500], "second": after[:500]})
+    return again
+
+
 # ------------------------------------------ (A) arguments are not modified
 
 def strat_args(tier):
@@ -149,16 +223,40 @@ def check_args(case):
             with sut("allocate", documented):
                 allocations = allocate(vr, nets, machine, cons, placements)
         stages.append("allocate")
+        edits = case["seed"] % 3 == 0
+        if edits:
+            with sut("allocate (again)", documented):
+                allocations = result_is_the_callers(
+                    "allocate", lambda: allocate(vr, nets, machine, cons,
+                                                 placements), allocations,
+                    vr, nets, machine, cons, placements)
         kw = {} if case["radius"] is None else {"radius": case["radius"]}
+        random.seed(case["seed"] + 1)
         with unchanged("route", vr, nets, machine, cons, placements,
                        allocations):
             with sut("route", documented):
                 routes = route(vr, nets, machine, cons, placements,
                                allocations, **kw)
         stages.append("route")
+        if edits:
+            def route_again():
+                random.seed(case["seed"] + 1)
+                return route(vr, nets, machine, cons, placements,
+                             allocations, **kw)
+            with sut("route (again)", documented):
+                routes = result_is_the_callers(
+                    "route", route_again, routes, vr, nets, machine, cons,
+                    placements, allocations)
         with unchanged("routing_tree_to_tables", routes, keys):
             with sut("routing_tree_to_tables", documented):
                 tables = routing_tree_to_tables(routes, keys)
+        if edits:
+            with sut("routing_tree_to_tables (again)", documented):
+                tables = result_is_the_callers(
+                    "routing_tree_to_tables",
+                    lambda: routing_tree_to_tables(routes, keys), tables,
+                    routes, keys)
+            stages.append("results-emptied-by-the-caller")
         tables = dict(tables)
         stages.append("tables")
         t = case["target"]
@@ -169,12 +267,17 @@ def check_args(case):
             c01._methods(case["methods"])
         if methods is not None and case["seed"] % 2:
             methods = list(methods)     # the form the wrapper's docs show
+        def minimise_all():
+            if methods is None:
+                return minimise_tables(tables, t)
+            return minimise_tables(tables, t, methods)
         with unchanged("minimise_tables", tables, t, methods):
             with sut("minimise_tables", documented):
-                if methods is None:
-                    minimise_tables(tables, t)
-                else:
-                    minimise_tables(tables, t, methods)
+                minimised = minimise_all()
+        if edits:
+            with sut("minimise_tables (again)", documented):
+                result_is_the_callers("minimise_tables", minimise_all,
+                                      minimised, tables, t, methods)
         stages.append("minimise_tables")
         for chip, table in sorted(tables.items())[:3]:
             for name, fn in (("ordered_covering.minimise", oc.minimise),
